@@ -37,11 +37,11 @@ type transcript struct {
 
 // authState carries material across the sessions of one auth run.
 type authState struct {
-	r      *runState
-	kA, kB recKey // honest keys
-	kM     recKey // the attacker's own, real key
-	victim crypto.PubKeyEd25519
-	past   []transcript
+	r        *runState
+	kA, kB   recKey // honest keys
+	kM       recKey // the attacker's own, real key
+	victim   crypto.PubKeyEd25519
+	past     []transcript
 	verdicts []string
 }
 
